@@ -60,6 +60,47 @@ def check_binary(bloch, t1, a, t2, b, op):
     if not ok:
         fail('eval.binary.%s' % ({'+': 'add.int_otherwise', '-': 'sub.int_otherwise', '*': 'mul.int_otherwise', '/': 'div.always_float', '%': 'mod.truncated_remainder'}[op]), src, 'printed %s, expected %s' % (got, want))
 
+CMP = {'>': 'gt', '<': 'lt', '>=': 'ge', '<=': 'le', '==': 'eq', '!=': 'ne'}
+def check_compare(bloch, t1, a, t2, b, op):
+    global checks
+    checks += 1
+    src = 'function main() -> void { %s a = %s; %s b = %s; echo(a %s b); }' % (t1, lit(t1, a), t2, lit(t2, b), op)
+    rc, out = run(bloch, src)
+    if crashed(rc): fail('eval.binary.only_runtime_errors', src, 'interpreter died with status %d' % rc); return
+    if rc != 0: return
+    got = out.strip().split('\n')[-1].strip()
+    want = eval('(float(a) if isf else a) %s (float(b) if isf else b)' % op, dict(a=a, b=b, isf='float' in (t1, t2)))
+    if got not in ('true', 'false') or (got == 'true') != want:
+        fail('eval.binary.%s.compares_promoted_values' % CMP[op], src, 'printed %s, expected %s' % (got, 'true' if want else 'false'))
+
+def check_logic(bloch, a, b, op):
+    global checks
+    checks += 1
+    src = 'function main() -> void { boolean a = %s; boolean b = %s; echo(a %s b); }' % ('true' if a else 'false', 'true' if b else 'false', op)
+    rc, out = run(bloch, src)
+    if rc != 0: return
+    got = out.strip().split('\n')[-1].strip(); want = (a and b) if op == '&&' else (a or b)
+    if (got == 'true') != want: fail('eval.binary.and_or.on_boolean_or_bit', src, 'printed %s, expected %s' % (got, want))
+
+def check_bits(bloch, a, b, op):
+    global checks
+    checks += 1
+    src = 'function main() -> void { bit a = %db; bit b = %db; echo(a %s b); }' % (a, b, op)
+    rc, out = run(bloch, src)
+    if rc != 0: return
+    got = out.strip().split('\n')[-1].strip(); want = {'&': a & b, '|': a | b, '^': a ^ b}[op]
+    if got != str(want): fail('eval.binary.bitwise.scalar_bits', src, 'printed %s, expected %d' % (got, want))
+
+def check_unary(bloch):
+    global checks
+    for src, want, lab in (('int a = 5; echo(-a);', '-5', 'eval.unary.neg.keeps_tag_and_negates'), ('long a = 7L; echo(-a);', '-7', 'eval.unary.neg.keeps_tag_and_negates'), ('float a = 1.5f; echo(-a);', '-1.5', 'eval.unary.neg.keeps_tag_and_negates'),
+                           ('boolean a = true; echo(!a);', 'false', 'eval.unary.not.on_boolean_or_bit'), ('boolean a = false; echo(!a);', 'true', 'eval.unary.not.on_boolean_or_bit'),
+                           ('bit a = 1b; echo(~a);', '0', 'eval.unary.tilde.flips_bit'), ('bit a = 0b; echo(~a);', '1', 'eval.unary.tilde.flips_bit')):
+        checks += 1
+        rc, out = run(bloch, 'function main() -> void { %s }' % src)
+        got = out.strip().split('\n')[-1].strip() if rc == 0 else '<exit %d>' % rc
+        if got != want: fail(lab, src, 'printed %s, expected %s' % (got, want))
+
 def check_literal(bloch, t, text):
     global checks
     checks += 1
@@ -80,8 +121,9 @@ def main():
         # targeted replay of a counterexample: operand types and operator taken from the verifier's trace
         t1, t2, op = sys.argv[3], sys.argv[4], sys.argv[5]
         for a in edge[t1][:5] + [10, 3]:
-            for b in edge[t2][:5] + [4, 7]:
-                if not (op == '%' and 'float' in (t1, t2)): check_binary(bloch, t1, a, t2, b, op)
+            for b in edge[t2][:5] + [4, 7, 10]:
+                if op in CMP: check_compare(bloch, t1, a, t2, b, op)
+                elif not (op == '%' and 'float' in (t1, t2)): check_binary(bloch, t1, a, t2, b, op)
         print(json.dumps(dict(oracle_checks=checks, oracle_failures=fails))); sys.exit(1 if fails else 0)
     for t1, t2 in (('long', 'long'), ('int', 'int'), ('int', 'long'), ('long', 'int')):
         for a in (edge[t1][-1], edge[t1][-2], 5):
@@ -89,6 +131,15 @@ def main():
                 for op in '%/': check_binary(bloch, t1, a, t2, b, op)
     for t, text in (('int', '99999999999'), ('int', '2147483648'), ('float', '9' * 60 + '.0f'), ('long', '99999999999999999999L'), ('bit', '1b'), ('int', '2147483647')):
         check_literal(bloch, t, text)
+    # comparisons: equal, adjacent and mixed-type operands for every operator
+    for op in CMP:
+        for (t1, a, t2, b) in (('int', 3, 'int', 3), ('int', 2, 'int', 3), ('int', 3, 'int', 2), ('long', 7, 'long', 7), ('int', 5, 'long', 5), ('long', 2**31, 'int', 1), ('float', 1.5, 'int', 1), ('int', 2, 'float', 2.0), ('float', 2.5, 'float', 2.5), ('int', -1, 'int', 0)):
+            check_compare(bloch, t1, a, t2, b, op)
+    for a in (0, 1):
+        for b in (0, 1):
+            for op in ('&&', '||'): check_logic(bloch, a, b, op)
+            for op in '&|^': check_bits(bloch, a, b, op)
+    check_unary(bloch)
     for _ in range(count):
         t1, t2 = rnd.choice(['int', 'long', 'float']), rnd.choice(['int', 'long', 'float'])
         a, b = rnd.choice(edge[t1] + [rnd.randint(-1000, 1000)]), rnd.choice(edge[t2] + [rnd.randint(-1000, 1000)])
